@@ -206,7 +206,7 @@ def case_chain(ctx, env, rng, cid):
   ops = []
   for _ in range(rng.randint(3, 10)):
     op = rng.choice(['times', 'bump', 'push', 'item', 'attr', 'call', 'child_attr',
-                     'fail', 'iter', 'missing_attr', 'async_times'])
+                     'fail', 'iter', 'missing_attr', 'async_times', 'compare'])
     k = rng.randint(0, 3)
     if op == 'times':
       r = _outcome(lambda: ro.times(k).result_()); w = _outcome(lambda: twin.times(k))
@@ -228,6 +228,13 @@ def case_chain(ctx, env, rng, cid):
       r = _outcome(lambda: ro(k).result_()); w = _outcome(lambda: twin(k))
     elif op == 'child_attr':
       r = _outcome(lambda: ro.child(k).val.result_()); w = _outcome(lambda: twin.child(k).val)
+    elif op == 'compare':
+      # A handle compared with a value that is not a handle: never equal, never an
+      # error (like a local LazyObject handle); equal to itself.
+      other = rng.choice([5, None, 'x', (1, 2)])
+      r = _outcome(lambda: (ro == other, ro != other, ro in [1, other], ro == ro,
+                            [1, ro].index(ro)))
+      w = ('ok', (False, True, False, True, 1))
     elif op == 'fail':
       r = _outcome(lambda: ro.fail('no %d' % k).result_()); w = _outcome(lambda: twin.fail('no %d' % k))
     else:  # iter
